@@ -184,3 +184,27 @@ RULES["C20"] = [
   ("rip::bgi::character::Character::draw|S1|", "reviewed", "size is Bgi.char_size, which set_text_style clamps to 1..=10 (graph_defaults sets 4); SCALE tables have 11 entries"),
   ("rip::bgi::font::Font::get_text_size|S1|", "reviewed", "size is Bgi.char_size, which set_text_style clamps to 1..=10 (graph_defaults sets 4); SCALE tables have 11 entries"),
 ] + RULES["C01"]
+
+RULES["C03"] = [
+  # ---- genuine: a number from the input drives a loop / allocation / dimension unclamped (the property's own anchors name them)
+  ("print_char|MAG|for_each(Range{0, num}, {closure#1}", "known", "CSI Pn S (SU): (0..num).for_each(scroll_up) with num straight from parsed_numbers (ESC[2147483647S)"),
+  ("print_char|MAG|for_each(Range{0, num}, {closure#2}", "known", "CSI Pn T (SD): (0..num).for_each(scroll_down) with num straight from parsed_numbers"),
+  ("print_char|MAG|for_each(Range{0, num}, {closure#3}", "known", "CSI Pn b (REP): (0..num).for_each(print_char) with num straight from parsed_numbers (ESC[2147483647b)"),
+  ("print_char|MAG|for_each(Range{0, num}, {closure#4}", "known", "CSI Pn I (CHT/CVT): (0..num).for_each(next_tab_stop) with num straight from parsed_numbers"),
+  ("print_char|MAG|for_each(Range{0, num}, {closure#5}", "known", "CSI Pn Z (CBT): (0..num).for_each(prev_tab_stop) with num straight from parsed_numbers"),
+  ("print_char|MAG|into_iter(Range{0, *(first(&*deref(&*self.parsed_numbers)) as Some).0})", "known", "CSI Pn @ / P / L (ICH, DCH, IL): `for _ in 0..*number` with the parameter unclamped"),
+  ("ansi_commands::Parser::scroll_left|MAG|", "known", "CSI Pn SP @ (SL): (0..num).for_each(scroll_left) unclamped"),
+  ("ansi_commands::Parser::scroll_right|MAG|", "known", "CSI Pn SP A (SR): (0..num).for_each(scroll_right) unclamped"),
+  ("request_checksum_of_rectangular_area|MAG|", "known", "DECRQCRA: the rectangle's rows and columns are iterated as given (for y in top..bottom, for x in left..right), no clamp to the screen"),
+  ("parse_hex_macro_sequence|MAG|", "known", "DECDMAC hex repeat group `!Pn;..;`: (0..repeat_number).for_each pushes the group that many times (a 20-byte DCS allocates gigabytes)"),
+  ("sixel_mod::SixelParser::parse_char|MAG|into_iter(Range{0, *(first(", "known", "sixel repeat introducer `!Pn`: the following sixel is translated Pn times, unclamped"),
+  ("sixel_mod::SixelParser::parse_char|MAG|resize(&*self.picture_data", "known", "sixel raster attributes `\"Pan;Pad;Ph;Pv`: picture_data is resized to Pv rows of 4*Ph bytes as declared"),
+  ("sixel_mod::SixelParser::parse_char|MAG|from_elem(0, (4 * ", "known", "sixel raster attributes: each declared row is allocated as vec![0; 4 * Ph] with Ph straight from the stream"),
+  ("palette_handling::Palette::set_color_hsl|MAG|", "known", "sixel colour introducer `#Pc;1;..`: the palette is resized to Pc + 1 entries for any Pc"),
+  ("palette_handling::Palette::set_color_rgb|MAG|", "known", "sixel colour introducer `#Pc;2;..`: the palette is resized to Pc + 1 entries for any Pc"),
+  ("IcyDraw as formats::OutputFormat>::load_buffer|MAG|", "known", "IcyDraw ICED / LAYER chunks: u32 width and height from the file go unchecked into Buffer/Layer::set_size and into `for y in 0..height`"),
+  ("layer::Layer::from_clipboard_data|MAG|", "known", "clipboard payload: u32 width and height go unchecked into Layer::new and the two cell loops"),
+  ("fonts::BitFont::calculate_checksum|MAG|", "known", "PSF2 header `length` (u32) is stored as the glyph count and iterated by calculate_checksum"),
+  ("cycle|<parsers::ansi::Parser as parsers::BufferParser>::print_char <-> parsers::ansi::Parser::invoke_macro_by_id", "known", "DECINVM: a macro may invoke itself or another macro that invokes it back; print_char -> invoke_macro_by_id -> print_char recursion has no depth bound (stack exhaustion)"),
+  ("fonts::glyphs_from_u8_data|progress|", "known", "custom font / PSF1 data with a glyph height of 0: `while !data.is_empty() { data = &data[font_height..] }` never advances"),
+]
